@@ -277,6 +277,38 @@ func scenarioFresh(c *vrun.Ctx) {
 		}
 		env.close()
 	}
+	// ---- boundary numbers of max-age: every positive value, however large, means "fresh for that long":
+	// stored, and reused one second and one hour later (C04: stored and reused while fresh) ----
+	for _, ma := range []string{"1", "2147483647", "2147483648", "3000000000", "4294967295", "4294967296", "31536000000", "9223372036", "9223372037", "9223372036854775807"} {
+		caseNo++
+		if !c.Mine(caseNo) {
+			continue
+		}
+		c.Case()
+		env := newEnv(envOpts{Backend: p.Backend, DefaultMaxAgeS: 3600})
+		uri := env.uniq("b")
+		env.origin.Put(uri, &vnet.Res{Name: "b" + strconv.Itoa(env.seq), Size: 24, NoConditionals: true, Headers: vnet.H{{"Cache-Control", "max-age=" + ma}}})
+		desc := "Cache-Control: max-age=" + ma + "; requests at 0 s, 1 s (and 1 h unless max-age is 1)"
+		env.do("GET", uri, nil, "")
+		pattern := ""
+		for i, gap := range []time.Duration{time.Second, time.Hour} {
+			if ma == "1" {
+				break
+			}
+			vtime.Advance(gap)
+			env.origin.Bump(uri)
+			_, reqs := env.do("GET", uri, nil, "")
+			if len(reqs) > 0 {
+				pattern += "C"
+				c.SetCase(desc)
+				c.Violation("C04/fresh/store/not-reused-while-fresh/max-age-boundary-number", fmt.Sprintf("request %d contacted the origin %v after a 200 with max-age=%s was received | %s", i+2, gap, ma, desc), nil)
+				break
+			}
+			pattern += "H"
+		}
+		c.Outcome("max-age=" + ma + ":" + pattern)
+		env.close()
+	}
 	// ---- the origin's clock runs ahead of the proxy's (its Date lies in the proxy's future), or the
 	// response has no Date at all: Age and ttl of later hits still follow the time the entry was
 	// stored (C03: "its Age and ttl are consistent with the time it was stored") ----
